@@ -405,6 +405,22 @@ let run_layout (x : sexp) : string =
       Printf.sprintf "typer=%s accepted=%b" (string_of_z (Layout.typer_aligned_size sizes)) (Layout.word_accepted (z_of_string declared) sizes)
   | _ -> failwith "layout"
 
+(* ---- C09: literals --------------------------------------------------------------- *)
+let run_literal (x : sexp) : string =
+  match x with
+  | L [A neg; A kind; A mag; A sfx; A ty] ->
+      let m = z_of_string mag in
+      let tok = match kind with
+        | "naked" -> Literal.TNaked m | "bits" -> Literal.TBits m
+        | "suffixed" -> Literal.TSuffixed (m, prim_of_string sfx) | _ -> failwith "kind" in
+      let t = prim_of_string ty in
+      let (l, _) = Literal.source_literal true (neg = "1") tok in
+      let bits = Literal.bits_of (z_of_int 64) l t in
+      let w = TypeTables.vt_bits (z_of_int 64) t in
+      let v = if TypeTables.vt_is_signed t then Bits.sgn w bits else bits in
+      Printf.sprintf "lint=%b value=%s" (Literal.lint l t) (string_of_z v)
+  | _ -> failwith "literal"
+
 let dispatch (stream : string) (x : sexp) : string =
   match stream with
   | "labels" -> run_labels x
@@ -414,6 +430,7 @@ let dispatch (stream : string) (x : sexp) : string =
   | "header" -> run_header x
   | "containers" -> run_containers x
   | "layout" -> run_layout x
+  | "literal" -> run_literal x
   | "tables" -> run_tables (match x with A n -> int_of_string n | _ -> 64)
   | "syntax" -> run_syntax true x
   | "syntax-pinned" -> run_syntax false x
